@@ -9,11 +9,11 @@ from props import common, c08
 LEVEL = "other"
 EXPLANATION = (
     "What a program verifier can decide of this property it decides for the five x86-64 files (the ones every default build "
-    "and the whole test suite on this host run) the i386 permutation, the three RISC-V permutations and the AArch64, ARMv6, ARMv7-M, ARMv6-M, Xtensa and m68k permutations - 15 of the 18 generated files: ascon-asm-x86-64.S, "
+    "and the whole test suite on this host run) the i386 permutation, the three RISC-V permutations and the AArch64, ARMv6, ARMv7-M, ARMv6-M, Xtensa, m68k and AVR5 permutations - 16 of the 18 generated files: ascon-asm-x86-64.S, "
     "ascon-x2/x3/x4-asm-x86-64.S and ascon-word-asm-x86-64.S are lifted to C instruction by instruction on every run "
     "(tools/lift_x86_64.py) and (1) ascon_permute is enforced against the reference permutation for all 2^320 states and "
     "all 256 start rounds with its frame (only *state); (2) the masked permutations are proved round by round on the "
-    "unmasked state from arbitrary sharings; (3) the 35 masked-word functions meet the same obligations as the C toolkit; (3b) the i386 ascon_permute (lifted by tools/lift_i386.py, %esp tracked statically) is enforced against the reference permutation in the bit-sliced layout, and so are the RV64I, RV32I and RV32E permutations (tools/lift_riscv.py) and the AArch64 (tools/lift_arm64.py), ARMv6, ARMv7-M and ARMv6-M (tools/lift_arm32.py) Xtensa (tools/lift_xtensa.py, call0 ABI variant) and m68k (tools/lift_m68k.py) permutations; "
+    "unmasked state from arbitrary sharings; (3) the 35 masked-word functions meet the same obligations as the C toolkit; (3b) the i386 ascon_permute (lifted by tools/lift_i386.py, %esp tracked statically) is enforced against the reference permutation in the bit-sliced layout, and so are the RV64I, RV32I and RV32E permutations (tools/lift_riscv.py) and the AArch64 (tools/lift_arm64.py), ARMv6, ARMv7-M and ARMv6-M (tools/lift_arm32.py) Xtensa (tools/lift_xtensa.py, call0 ABI variant) m68k (tools/lift_m68k.py) and AVR5 (tools/lift_avr.py, start rounds 0..11) permutations; "
     "(4) in every lifted function the stack model is balanced at ret and rbx, rbp, r12-r15 hold their entry values (ABI), "
     "and every memory access lies inside the exactly-sized argument objects (CBMC pointer checks; the lifted code has no "
     "other memory). Supporting static facts, computed on every run from the working tree (not contracts): (a) each of the "
@@ -25,7 +25,7 @@ EXPLANATION = (
     "libascon.so was linked with an executable stack (GNU_STACK RWE); repaired in CMakeLists.txt."
 )
 ASSUMPTIONS = [
-    "the three AVR5 assembly files (plain permutation, masked x2 and x3) are NOT verified against the specification or their ABIs: only generator equality and the executable-stack fact are checked for them",
+    "the two masked AVR5 assembly files (ascon-x2-asm-avr5.S, ascon-x3-asm-avr5.S) are NOT verified against the specification or their ABIs: only generator equality and the executable-stack fact are checked for them",
     "lifter trusted: instruction table, System V calling convention, narrow arguments arriving zero-extended; only the Linux/ELF preprocessor variant; the ASCON_MASKED_MAX_SHARES == 4 layout of the masked files in the quick tier, 3 and 2 in the thorough tier",
     "generator equality compares with the generators of the same working tree (a change made consistently to generator and output passes this fact and is then judged by the contract part, for x86-64 only)",
     "executable stack: decided per object file (a missing .note.GNU-stack section in any input object makes GNU ld mark the stack executable unless -z noexecstack is given); the final link of libascon is not repeated by the check",
@@ -59,6 +59,7 @@ def groups(tier):
     gs += c08.arm32_groups(props=("C18",), prefix="c18")
     gs += c08.xtensa_groups(props=("C18",), prefix="c18")
     gs += c08.m68k_groups(props=("C18",), prefix="c18")
+    gs += c08.avr_groups(props=("C18",), prefix="c18", rounds=(0, 6, 11) if tier == "quick" else range(0, 12))
     gs += common.masked_asm_permute_groups("c18", ["C18"], tier, seed=seed, layouts=(4,) if tier == "quick" else (4, 3, 2))
     gs += common.masked_word_groups("c18", ["C18"], cfg="DEF", max_shares=4)
     return gs
